@@ -97,6 +97,18 @@ def exec_grammar(engine_extras: bool = False, opt_extras: bool = False, limit_ex
         A("intersect", 1, "SELECT a FROM x INTERSECT SELECT c FROM y"),
         A("except", 1, "SELECT a FROM x EXCEPT SELECT c FROM y"),
         A("union_filter", 1, "SELECT a FROM x WHERE {sc} UNION SELECT c FROM y"),
+        # DISTINCT together with GROUP BY: a grouping key used only inside a many-to-one expression, or not selected at all
+        A("dg.coalesce", 1, "SELECT DISTINCT COALESCE(a, 0) AS k, SUM(b) AS s FROM x GROUP BY a"),
+        A("dg.is_null", 1, "SELECT DISTINCT a IS NULL AS k, COUNT(*) AS n FROM x GROUP BY a"),
+        A("dg.case", 1, "SELECT DISTINCT CASE WHEN a > 1 THEN 1 ELSE 0 END AS k, COUNT(b) AS n FROM x GROUP BY a"),
+        A("dg.agg_only", 1, "SELECT DISTINCT COUNT(*) AS n FROM x GROUP BY a"),
+        A("dg.two_keys_one_selected", 1, "SELECT DISTINCT a, COUNT(*) AS n FROM x GROUP BY a, b"),
+        # DISTINCT over a DISTINCT derived table / CTE with an aggregate or a window computed in between
+        A("dd.agg", 1, "SELECT DISTINCT COUNT(*) AS n, SUM(t.a) AS s FROM (SELECT DISTINCT a FROM x) AS t"),
+        A("dd.window", 1, "SELECT DISTINCT t.a, COUNT(*) OVER (PARTITION BY t.a) AS n FROM (SELECT DISTINCT a FROM x) AS t"),
+        A("dd.plain", 1, "SELECT DISTINCT t.a FROM (SELECT DISTINCT a, b FROM x) AS t"),
+        A("dd.cte_rownum", 1, "WITH t AS (SELECT DISTINCT a FROM x) SELECT DISTINCT ROW_NUMBER() OVER (ORDER BY t.a) AS rn FROM t"),
+        A("dd.join", 1, "SELECT DISTINCT t.a, y.c FROM (SELECT DISTINCT a, b FROM x) AS t LEFT JOIN y ON t.b = y.b"),
         # both operands read the SAME table (under its own name / under the same alias / under two aliases), with different filters
         A("same.union_all", 1, "SELECT a FROM x UNION ALL SELECT a FROM x WHERE {sc}"),
         A("same.except", 1, "SELECT a FROM x EXCEPT SELECT a FROM x WHERE {sc}"),
